@@ -30,7 +30,7 @@ man = {
     }],
     "checks": [],
     "not_applicable": [],
-    "notes": "All checks are `./check <id> <tier>`; exit 0 held / 1 violation (VIOLATION line) / 2 inconclusive or build failure. Known and fixed findings: known_findings.json. VERIF_SEED selects the random streams.",
+    "notes": "All checks are `./check <id> <tier>`; exit 0 held / 1 violation (VIOLATION line) / 2 inconclusive or build failure. Known and fixed findings: known_findings.json. VERIF_SEED selects the random streams. The harness binary is built with `go build -overlay` over a copy of the toolchain's time/time.go (tools/mkoverlay.py) so that monitors can set the wall clock read by time.Now; this touches nothing in /repo and is skipped (clock monitors count themselves as skipped) if the toolchain source has another shape or VERIF_NO_CLOCK_OVERLAY=1 is set.",
 }
 for i in ids:
     if i in CLAIMED:
